@@ -698,6 +698,15 @@ func (m *collection) appendChildLLSnapshot(dst *segmentStack,
 		var childSnap Snapshot
 		if src != nil {
 			childSnap, _ = src.ChildCollectionSnapshot(cName)
+
+			// A persisted child footer of a prior incarnation (the child
+			// was deleted and recreated, and that is not yet persisted)
+			// must not show through the recreated child collection.
+			if childFooter, ok := childSnap.(*Footer); ok && childFooter != nil &&
+				childFooter.incarNum != childCollection.incarNum {
+				childFooter.Close()
+				childSnap = nil
+			}
 		}
 
 		dst.childSegStacks[cName] =
